@@ -31,16 +31,16 @@ type killedHandler struct {
 // handleChildDeath 处理子 Actor 死亡
 func (h *killedHandler) handleChildDeath() {
 	if !h.message.Ref.Equals(h.ctx.ref) {
-		delete(h.ctx.children, h.message.Ref.GetPath())
+		remaining := h.ctx.removeChild(h.message.Ref.GetPath())
 		h.ctx.executeBehaviorWithRecovery(h.behavior)
-		h.ctx.Logger().Debug("child death", log.Int("children_count", len(h.ctx.children)), log.String("ref", h.ctx.ref.GetPath()), log.String("child", h.message.Ref.GetPath()))
+		h.ctx.Logger().Debug("child death", log.Int("children_count", remaining), log.String("ref", h.ctx.ref.GetPath()), log.String("child", h.message.Ref.GetPath()))
 	}
 }
 
 // checkAndMarkKilled 检查并标记为 killed
 func (h *killedHandler) checkAndMarkKilled() {
 	// 如果还有子 Actor，则不处理自身死亡
-	if len(h.ctx.children) != 0 || !atomic.CompareAndSwapInt32(&h.ctx.state, killing, killed) {
+	if h.ctx.childCount() != 0 || !atomic.CompareAndSwapInt32(&h.ctx.state, killing, killed) {
 		h.shouldContinue = false
 		return
 	}
